@@ -489,6 +489,8 @@ def contracts():
     for t in (0, 2):
         cs += [IndexLookup(t), MaskedLookup(t), ReorderedLookup(t), UniformDerivedLookup(t), DerivedLookup(t)]
     cs += [ChainedLookup(0), ChainedLookup(2), IndexLookupNegative(), IndexLookupForeign(), MaskedForeign(), AxisInverse('unmap-after-map'), AxisInverse('map-after-unmap')]
+    from contracts import c11_chain
+    cs += c11_chain.contracts()
     return cs
 
 
